@@ -665,6 +665,15 @@ func TestC16(t *testing.T) {
 		jobs = append(jobs, func(idx int, em *Emitter) { runProxyAttachRace(t, idx, em, true, procs, 0, placedRounds) })
 		jobs = append(jobs, func(idx int, em *Emitter) { runProxyAttachRace(t, idx, em, false, procs, box, maxFree) })
 	}
+	// overflow race: bursts above the buffer towards a slow consumer, free-running (probabilistic)
+	brounds := 60
+	if thorough() {
+		brounds = 1500
+	}
+	for _, procs := range []int{1, 4, 16} {
+		procs := procs
+		jobs = append(jobs, func(idx int, em *Emitter) { runProxyBurstRace(t, idx, em, procs, brounds) })
+	}
 	// re-check of the exploration reduction against the full exploration (a sample in the quick tier)
 	for _, sc := range redScenarios() {
 		sc := sc
